@@ -34,6 +34,8 @@ def run(rep, kf, tier, seed):
         rep.merge(r)
     import contracts.removal as crm
     import contracts.body_refs as cbr
+    import contracts.union_convert as cuc
+    engine_b.discharge(rep, kf, [cuc.convert_contract()], "C06", tier, seed)
     import contracts.fixpoints as cfp
     engine_b.discharge(rep, kf, [crm.propagate_contract(), cbr.resolve_contract()] + cfp.all_contracts(), "C06", tier, seed)
     import contracts.closure as clo
